@@ -129,6 +129,18 @@ type vc13Server struct {
 	started  int
 	finished int
 	trig     *vc13Trigger
+
+	// active is the number of requests that are being handled right now.
+	active int
+}
+
+// activeHandlers returns the number of requests that the server is handling
+// right now, that is, what the code under test could be waiting for.
+func (s *vc13Server) activeHandlers() (n int) {
+	s.mu.Lock()
+	defer s.mu.Unlock()
+
+	return s.active
 }
 
 // vc13NewServer starts a server with an empty plan (everything is 404).
@@ -250,6 +262,13 @@ func (s *vc13Server) close() {
 // ServeHTTP implements the [http.Handler] interface for *vc13Server.
 func (s *vc13Server) ServeHTTP(w http.ResponseWriter, r *http.Request) {
 	s.mu.Lock()
+	s.active++
+	defer func() {
+		s.mu.Lock()
+		s.active--
+		s.mu.Unlock()
+	}()
+
 	p := s.plan
 	resp := p.resps[r.URL.Path]
 	if resp == nil {
